@@ -384,6 +384,6 @@ byte-snapshotted before and compared after each call; results are compared bit-e
 and against an independent numpy reference otherwise.'''
 LEVEL_NOTE = '''Trusted: numpy (np.interp, searchsorted) as the reference for linear interpolation, scipy.interpolate as used
 by the tree. Not judged: non-linear interpolation methods, NaN/inf data, disk I/O helpers. Two deterministic probes report
-the known-finding candidates 'apply-delay-mutates-input' (apply_delay writes into ts.data of its argument) and
+the (since repaired) findings 'apply-delay-mutates-input' (apply_delay writes into ts.data of its argument) and
 'single-sample-resample-nan' (a 1-sample series resampled at its own timestamp gives NaN); the generated search protects
 the apply_delay input with a copy so that the remaining oracles keep running behind that finding.'''
